@@ -170,7 +170,7 @@ func main() {
 			fmt.Fprintf(os.Stderr, "profile: %8d terms at %s\n", kvs[i].v, kvs[i].k)
 		}
 		if theBDD != nil {
-			fmt.Fprintf(os.Stderr, "bdd: nodes=%d vars=%d calls=%d cut=%d blown=%v\n", len(theBDD.nodes), theBDD.nvars, bddStats.calls, bddStats.cut, theBDD.blown)
+			fmt.Fprintf(os.Stderr, "bdd: nodes=%d vars=%d calls=%d cut=%d aborts=%d resets=%d\n", len(theBDD.nodes), theBDD.nvars, bddStats.calls, bddStats.cut, bddStats.aborts, bddStats.resets)
 		}
 		fmt.Fprintf(os.Stderr, "encoded: instrs=%d terms=%d merges=%d lazy=%d constraints=%d encode_ms=%d\n", e.instrs, TS.next, e.merges, len(e.lazyPanics), len(e.constraints), res.EncodeMs)
 	}
